@@ -65,7 +65,7 @@ func (c04) NumCases(tier string, _ int64) int {
 }
 func (c04) Exhaustive(string) bool { return false }
 func (c04) Floors(string) []runner.Floor {
-	return []runner.Floor{{Stat: "overlapping_request_pairs", Min: 500}, {Stat: "responses_checked_against_log", Min: 2000}, {Stat: "porcupine_ok", Min: 10}}
+	return []runner.Floor{{Stat: "overlapping_request_pairs", Min: 500}, {Stat: "responses_checked_against_log", Min: 2000}, {Stat: "porcupine_ok", Min: 10}, {Stat: "racing_retransmissions", Min: 100}}
 }
 
 // ---- recording ----
